@@ -89,6 +89,20 @@ FEATURES = {
     "forall_union_right_never": ("forall", "z", ("or", ("cmp", "eq", A(X, "a"), L(0)), ("cmp", "eq", A(Z, "b"), L(7)))),
     "exists_and_union": ("exists", "z", ("and", ("cmp", "eq", A(Z, "a"), A(X, "a")),
                                         ("or", ("cmp", "eq", A(X, "b"), L(0)), ("cmp", "eq", A(Z, "b"), L(1))))),
+    # predicates and symbolic functions over the quantified variable
+    "forall_pred": ("forall", "z", ("pred", "SameA", X, Z)),
+    "forall_pred_or": ("forall", "z", ("or", ("pred", "SameA", Z, X), ("cmp", "eq", A(Z, "b"), L(1)))),
+    "forall_func": ("forall", "z", ("func", "b_is", (("item", Z), ("k", A(X, "b"))))),
+    "exists_pred": ("exists", "z", ("and", ("pred", "SameA", X, Z), ("cmp", "ne", A(Z, "b"), A(X, "b")))),
+    # two quantifiers as the operands of one connective (same and different quantified variables)
+    "or_forall_exists": ("or", ("forall", "z", ("cmp", "ge", A(Z, "a"), A(X, "a"))),
+                         ("exists", "w", ("cmp", "lt", ("attr", ("var", "w"), "b"), A(X, "b")))),
+    "or_forall_exists_same_var": ("or", ("forall", "z", ("cmp", "ge", A(Z, "a"), A(X, "a"))),
+                                  ("exists", "z", ("cmp", "lt", A(Z, "b"), A(X, "b")))),
+    "and_exists_forall": ("and", ("exists", "w", ("cmp", "lt", ("attr", ("var", "w"), "b"), A(X, "b"))),
+                          ("forall", "z", ("cmp", "le", A(Z, "a"), A(X, "a")))),
+    "or_exists_exists": ("or", ("exists", "z", ("cmp", "gt", A(Z, "a"), A(X, "a"))),
+                         ("exists", "w", ("cmp", "lt", ("attr", ("var", "w"), "b"), A(X, "b")))),
     "forall_exists": ("forall", "z", ("exists", "w", ("and", ("cmp", "eq", ("attr", ("var", "w"), "a"), A(Z, "a")),
                                                    ("cmp", "eq", ("attr", ("var", "w"), "b"), A(X, "b"))))),
 }
@@ -220,6 +234,22 @@ def cases(tier, seed):
                     q = ("query", kind, sels, c, (("dom", "x"), sub))
                     for dspec in (("D5",), ("D5falsy",), ("sub3", 7, 7), ("sub3", 5, 6)):
                         out.append((q, dspec))
+    # part E: the same expression object at several positions of one query (f = x.flag; ... f ... f ...)
+    FL, YF = A(X, "flag"), A(Y, "flag")
+    XA = A(X, "a")
+    shared = [("and", ("bool", FL), ("cmp", "eq", YF, FL)), ("and", ("cmp", "eq", YF, FL), ("bool", FL)),
+              ("and", ("bool", FL), ("cmp", "eq", A(Y, "a"), L(1))), ("or", ("bool", FL), ("cmp", "eq", YF, FL)),
+              ("and", ("not", ("bool", FL)), ("cmp", "ne", YF, FL)), ("and", ("bool", FL), ("bool", FL)),
+              ("and", ("cmp", "eq", XA, L(0)), ("cmp", "lt", XA, A(Y, "b"))), ("or", ("cmp", "eq", XA, L(1)), ("cmp", "eq", A(Y, "a"), XA)),
+              ("and", ("cmp", "eq", XA, A(Y, "a")), ("not", ("cmp", "eq", XA, L(0)))),
+              ("and", ("in", XA, L((1, 2))), ("cmp", "eq", XA, A(Y, "b"))),
+              ("and", ("bool", FL), ("exists", "z", ("cmp", "ne", A(Z, "flag"), FL))),
+              ("and", ("cmp", "eq", XA, L(1)), ("forall", "z", ("cmp", "le", A(Z, "a"), XA)))]
+    for c in shared:
+        for c2 in (c, ("not", c)):
+            for kind, sels in [("entity", (X,)), ("setof", (X, Y)), ("setof", (Y, X)), ("setof", (X, FL)), ("setof", (XA, Y))]:
+                for dspec in (("D5",), ("D5rev",), ("D5falsy",), ("sub3", 7, 7), ("sub3", 5, 6)):
+                    out.append((mkq(kind, sels, c2), dspec, "shared-terms"))
     return out
 
 
@@ -253,7 +283,8 @@ def names(rowkeys, world):
 
 
 def run_case(case):
-    q, dspec = case
+    q, dspec = case[:2]
+    share_terms = len(case) > 2
     world = make_world(dspec)
     res = CaseResult()
     try:
@@ -268,7 +299,7 @@ def run_case(case):
     exp = set(map(fol.row_key, exp_rows))
     feats = set()
     try:
-        built = eqlfront.build(q, world)
+        built = eqlfront.build(q, world, share_terms=share_terms)
         got_rows = built.rows()
         got = set(map(fol.row_key, got_rows))
     except Exception as e:
@@ -277,24 +308,27 @@ def run_case(case):
         res.outcome_key = ("crash", type(e).__name__)
         return res
     res.outcome_key = tuple(sorted(got))
+    note = " [equal terms are ONE expression object]" if share_terms else ""
     n_total = 1
     for d in q[4]:
         if d[0] == "dom":
             n_total *= len(world[d[1]])
     if exp and len(exp_rows) < n_total or (exp and any(d[0] != "dom" for d in q[4])):
-        res.nontrivial_key = (q, dspec)
+        res.nontrivial_key = case
     for s in (fol.subconds(q[3]) if q[3] else ()):
         feats.add("node:" + s[0])
     feats.add("sel:" + q[1] + str(len(q[2])))
     feats.add("dom:" + dspec[0])
+    if share_terms:
+        feats.add("shared-terms")
     feats.add("expected:" + ("empty" if not exp else "some"))
     res.features = feats
     if got - exp:
-        res.failures.append(Failure("unsound-row", f"{fol.show_query(q)} on {dspec}: returned rows "
+        res.failures.append(Failure("unsound-row", f"{fol.show_query(q)}{note} on {dspec}: returned rows "
                                                    f"{names(got - exp, world)} that violate the conditions; "
                                                    f"expected {names(exp, world)}"))
     if exp - got:
-        res.failures.append(Failure("missing-row", f"{fol.show_query(q)} on {dspec}: rows {names(exp - got, world)} "
+        res.failures.append(Failure("missing-row", f"{fol.show_query(q)}{note} on {dspec}: rows {names(exp - got, world)} "
                                                    f"satisfy the conditions but are missing; got {names(got, world)}"))
     if len(res.failures) == 0 and res.sample is None and res.nontrivial_key is not None:
         res.sample = {"query": fol.show_query(q), "domains": list(dspec), "rows": names(exp, world)[:6]}
@@ -316,7 +350,7 @@ def finish(run):
 
 
 def repro(case):
-    q, dspec = case
+    q, dspec = case[:2]
     return f"""# C01 replay: {fol.show_query(q)} on domains {dspec}
 import sys; sys.path.insert(0, '/verif')
 from checks import c01
